@@ -376,8 +376,17 @@ func report(sum *Summary, prop, tier string, opt options, l *Loaded, t0 time.Tim
 			fmt.Printf("    funcs: %v\n", sortedKeys(r.Funcs))
 		}
 	}
+	seenKnown := map[string]int{}
+	var knownOrder []string
 	for _, k := range sum.Known {
-		fmt.Printf("KNOWN-FINDING: property=%s %s [%s %s %s at %s]\n", k.Prop, k.Known, k.Pkg+"."+k.Harn, k.Kind, k.Label, k.Site)
+		line := fmt.Sprintf("KNOWN-FINDING: property=%s %s [%s %s %s]", k.Prop, k.Known, k.Pkg+"."+k.Harn, k.Kind, k.Label)
+		if seenKnown[line] == 0 {
+			knownOrder = append(knownOrder, line)
+		}
+		seenKnown[line]++
+	}
+	for _, line := range knownOrder {
+		fmt.Printf("%s (on %d paths)\n", line, seenKnown[line])
 	}
 	for _, u := range sum.Unconfirmed {
 		fmt.Printf("UNCONFIRMED property=%s %s %s %q at %s native=%q model=%v\n", u.Prop, u.Pkg+"."+u.Harn, u.Kind, u.Label, u.Site, u.Native, compactModel(u.Model))
